@@ -134,6 +134,46 @@ def gate_sites(world, objs, sites, closes):
                 d[fname] = mk2(orig)
 
 
+        elif how == "aiterable":
+            # an AsyncIterable that is not its own iterator: every __aiter__() hands out a new iterator object, which alone has aclose()
+            if isinstance(orig, list):
+                def mk3(orig, key=key):
+                    def fn(path, args):
+                        class Iter:
+                            def __init__(self, n):
+                                self.i = 0
+                                self.n = n
+
+                            def __aiter__(self):
+                                return self
+
+                            async def __anext__(self):
+                                i = self.i
+                                self.i += 1
+                                if i == 0:
+                                    closes.append(("started", key))
+                                if i >= len(orig):
+                                    await world.gate(f"{key}#end{self.n or ''}", None, kind="src")
+                                    closes.append(("finished", key))
+                                    raise StopAsyncIteration
+                                return await world.gate(f"{key}#{i}{'/' + str(self.n) if self.n else ''}", orig[i], kind="src")
+
+                            async def aclose(self):
+                                closes.append(("closed", key))
+
+                        class Iterable:
+                            def __init__(self):
+                                self.n = 0
+
+                            def __aiter__(self):
+                                it = Iter(self.n)
+                                self.n += 1
+                                return it
+                        return Iterable()
+                    return fn
+                d[fname] = mk3(orig)
+
+
 def resolver(calls=None):
     def resolve(src, info, **args):
         v = src.get(info.field_name) if isinstance(src, dict) else None
@@ -169,6 +209,9 @@ def run(c, schema, doc, sites, fault, early, *, early_bound=True, variables=None
     with World() as w:
         gate_sites(w, objs, sites, obs.closes)
         ctl = AbortController() if stop == "abort" else None
+        if ctl is None and any(s.endswith(":aiterable") for s in sites):
+            # a signal that never fires: the library wraps source iterators only when an abort signal is passed
+            ctl = AbortController()
         state = {"it": None, "closing": False}
 
         def on_finished(info):
